@@ -76,6 +76,8 @@ func xfLinksWith(bs *blockSet, es []xfEntry, w string, mkDir func([]pbLink) pbLi
 			} else {
 				l = bs.file([]byte("DATA"))
 			}
+		case "missing": // a link to a block that is not in the archive
+			l = pbLink{Cid: bs.absent([]byte("absent " + strings.Join(e.N, "/"))), Tsize: 1}
 		case "link":
 			l = bs.symlink(e.To.str(w))
 		case "dir":
@@ -351,11 +353,11 @@ func runExtractReplay(args []string) int {
 		rep.inconclusive(err.Error())
 	}
 	rep.write(out)
-	if len(rep.Inconcl) > 0 {
-		return 2
-	}
 	if len(rep.ViolClasses) > 0 {
 		return 1
+	}
+	if len(rep.Inconcl) > 0 {
+		return 2
 	}
 	return 0
 }
